@@ -32,6 +32,16 @@ func main() {
 	dumpAnchors := flag.String("dump-anchors", "", "write the anchor record of the current tree to this file and exit")
 	mech := flag.String("mechref", "", "apply this mechanical behaviour-preserving rewrite to the Go files below -repo (a scratch copy, never /repo) and exit")
 	flag.Parse()
+	os.Unsetenv("GOWORK")
+	// go/packages resolves "go" through this process's PATH: put the pinned
+	// analysis toolchain first (it satisfies /repo's go directive offline).
+	{
+		goroot := os.Getenv("YV_GOROOT")
+		if goroot == "" {
+			goroot = "/opt/veriftools/go1.26.8"
+		}
+		os.Setenv("PATH", goroot+"/bin:"+os.Getenv("PATH"))
+	}
 	if *mech != "" {
 		if *repo == "/repo" {
 			fmt.Fprintln(os.Stderr, "-mechref rewrites files in place: give a scratch copy with -repo")
